@@ -95,6 +95,19 @@ AbortApp(a) ==
   /\ last' = [act |-> "StopApp", apps |-> {a}]
   /\ UNCHANGED pend
 
+(* ... also while an entanglement request of the application is outstanding or a response for it is waiting (the   *)
+(* subroutine is blocked in its wait): the request, the waiting responses and the physical qubits reserved for     *)
+(* them go with the application.                                                                                   *)
+PendOf(a) == { i \in DOMAIN pend : pend[i].app = a }
+AbortOutstanding(a) ==
+  /\ a \in apps /\ subs[a].active /\ (reqs[a].has \/ PendOf(a) # {})
+  /\ apps' = apps \ {a}
+  /\ used' = used \ (MappedOf(a) \cup { pend[i].phys : i \in PendOf(a) })
+  /\ ms' = [ms EXCEPT ![a] = NoApp]
+  /\ subs' = [subs EXCEPT ![a] = NoSub] /\ reqs' = [reqs EXCEPT ![a] = NoReq]
+  /\ pend' = SelectSeq(pend, LAMBDA r : r.app # a)
+  /\ last' = [act |-> "AbortOutstanding", apps |-> {a}]
+
 BeginSub(a, p) ==
   /\ a \in apps /\ ~subs[a].active
   /\ (p \in {"keep1", "keepfree"} => ~reqs[a].has /\ Len(ms[a].um) >= 2 /\ \A i \in DOMAIN pend : pend[i].app # a)
@@ -156,7 +169,7 @@ Retry ==
   /\ UNCHANGED <<apps, used, subs>>
 
 Next == \/ \E a \in AppIds, n \in UMSizes : InitApp(a, n)
-        \/ \E a \in AppIds : StopApp(a) \/ StepApp(a) \/ AbortApp(a)
+        \/ \E a \in AppIds : StopApp(a) \/ StepApp(a) \/ AbortApp(a) \/ AbortOutstanding(a)
         \/ \E a \in AppIds : \E phys \in {MinUnused(used), MinUnused(used \cup {MinUnused(used)})} : DeliverK(a, phys)
         \/ \E a \in AppIds, p \in ProgNames : BeginSub(a, p)
         \/ Retry
